@@ -41,8 +41,9 @@ func TestVerif_C17_Checkpointer(t *testing.T) {
 	rk := func(s SequenceID) []int { return []int{rank[s.LowSeq], rank[s.TriggeredBy], rank[s.Seq]} }
 
 	for bi, b := range behs {
+		cctx, cancel := context.WithCancel(context.Background())
 		c := &Checkpointer{
-			ctx:                            context.Background(),
+			ctx:                            cctx,
 			expectedSeqs:                   make([]SequenceID, 0),
 			processedSeqs:                  make(map[SequenceID]struct{}),
 			idAndRevLookup:                 make(map[IDAndRev]SequenceID),
@@ -115,6 +116,10 @@ func TestVerif_C17_Checkpointer(t *testing.T) {
 				}
 				e, p := state()
 				tw.Emit(vObj{"a": "Processed", "toks": [][]int{rk(s)}, "E": e, "P": p})
+			case "Cancel":
+				cancel()
+				e, p := state()
+				tw.Emit(vObj{"a": "Cancel", "E": e, "P": p, "cancelled": true})
 			case "Tick":
 				c.lock.Lock()
 				safe := c._updateCheckpointLists()
@@ -129,5 +134,6 @@ func TestVerif_C17_Checkpointer(t *testing.T) {
 				t.Fatalf("VERIF-FATAL unknown action %q", st.A)
 			}
 		}
+		cancel()
 	}
 }
